@@ -35,6 +35,7 @@ CHECKS = {
         native(),
         script("strace-kill", "legs_c07", "strace_leg"),
     ]},
+    "C08": {"crate": "h_engines", "bin": "c08", "level": "exploration", "legs": [native()]},
     "C09": {"crate": "h_engines", "bin": "c09", "level": "exploration", "legs": [
         native(),
         tsan(tiers=["thorough"], args={"all": {"only": "threads", "budget-s": 240}}),
@@ -70,6 +71,10 @@ CHECKS = {
     "C16": {"crate": "h_chain", "bin": "c16", "level": "exploration", "legs": [
         native(),
         tsan(tiers=["thorough"], args={"thorough": {"part": "concurrent", "budget-s": 300}}),
+    ]},
+    "C20": {"crate": "h_misc", "bin": "c20", "level": "exploration", "legs": [
+        native(),
+        asan(tiers=["thorough"], args={"all": {"part": "garbage"}}),
     ]},
     "C17": {"crate": "h_chain", "bin": "c17", "level": "exploration", "legs": [native()]},
 }
